@@ -135,41 +135,3 @@ Proof.
   apply Permutation_map. symmetry. apply Permutation_rev.
 Qed.
 
-(* ------------------------------------------------------------------ refutations (concrete witnesses) *)
-Definition w_xy : form := FMul (FSym PX 0) (FSym PY 0).
-Definition w_xy_ms : list smono := [(zi1, [SF PX 0 1; SF PY 0 1])].
-Definition w_ixy : form := FMul (FNum zii) (FMul (FSym PX 0) (FSym PY 0)).
-Definition w_ixy_ms : list smono := [(zi1, [SN zii; SF PX 0 1; SF PY 0 1])].
-Definition w_psi0 : mat Zi := [[zi1]; [zi0]].
-Definition w_zzz : form := FMul (FMul (FSym PZ 0) (FSym PZ 1)) (FSym PZ 0).
-Definition w_zzz_ms : list smono := [(zi1, [SF PZ 0 1; SF PZ 1 1; SF PZ 0 1])].
-Definition w_freq : freqs := [([false; false], 2%Z); ([true; false], 6%Z)].
-
-Lemma apply_refuted_witness :
-  form_ok 1 w_xy = true /\ smonos_op 1 w_xy_ms = denote 1 w_xy /\ wfm 2 1 w_psi0 /\
-  apply_gates 1 (terms_of w_xy_ms) w_psi0 <> apply_spec 1 w_xy w_psi0 /\
-  apply_gates_fixed 1 (terms_of w_xy_ms) w_psi0 = apply_spec 1 w_xy w_psi0.
-Proof.
-  split; [reflexivity|]. split; [vm_compute; reflexivity|]. split; [split; [reflexivity|repeat constructor]|].
-  split; [vm_compute; intro H; discriminate H|vm_compute; reflexivity].
-Qed.
-
-Lemma expectation_refuted_witness :
-  form_ok 1 w_ixy = true /\ smonos_op 1 w_ixy_ms = denote 1 w_ixy /\
-  (* the operator is Hermitian: -Z *)
-  denote 1 w_ixy = [[zim1; zi0]; [zi0; zi1]] /\
-  sym_expect_state 1 (terms_of w_ixy_ms) w_psi0 = 1%Z /\
-  dense_expect_state (denote 1 w_ixy) w_psi0 = (-1)%Z.
-Proof. repeat split; vm_compute; reflexivity. Qed.
-
-Lemma samples_refuted_witness :
-  smonos_op 2 w_zzz_ms = denote 2 w_zzz /\
-  sym_samples (terms_of w_zzz_ms) w_freq [0; 1] = Some ((-4)%Z, 8%Z) /\
-  samples_spec 2 (denote 2 w_zzz) w_freq [0; 1] = 8%Z.
-Proof. repeat split; vm_compute; reflexivity. Qed.
-
-Lemma dense_samples_partial_witness :
-  let M := denote 3 (FSym PZ 0) in
-  let fr : freqs := [([false], 2%Z); ([true], 6%Z)] in
-  is_diag M = true /\ dense_samples M fr [0] = Some (8%Z, 8%Z) /\ samples_spec 3 M fr [0] = (-4)%Z.
-Proof. repeat split; vm_compute; reflexivity. Qed.
